@@ -57,6 +57,11 @@ fn build(d: &D, tape: &[u8], offset: usize, sh: &Shared) -> Term {
                 build_plan(d, &mut tp)
             }
         }
+    } else if tp.next() % 16 == 0 {
+        // built on ANOTHER thread (thread-keyed state must not enter equality / hashing)
+        sh.class("history/constructed-on-other-thread");
+        let off = tp.next() as usize;
+        std::thread::scope(|s| std::thread::Builder::new().stack_size(64 << 20).spawn_scoped(s, || build_plan(d, &mut Tape::new(tape, off))).unwrap().join().unwrap())
     } else {
         sh.class("history/constructed");
         build_plan(d, &mut tp)
